@@ -30,6 +30,7 @@ typedef struct {
     int in_exec; int cur_len; unsigned char cur_prefix[MAXPTS];
     long executions, choice_points, steps, violations, lost_subtrees, maxpts, deaths, lib_aborts; int have_ref, ref_info;
     long sched_rets, regular_panels, pipelined_panels, waits_blocked;
+    long race_data_acc, race_sync_acc, race_reports;
     long conf_execs_ok, conf_events, conf_divergences, conf_execs_unmodelled; char conf_msg[300];
     unsigned long long outcomes[256]; int noutc;
     unsigned long long traces[1 << 21]; long ntraces;
@@ -66,6 +67,12 @@ static void mon_viol(const char *sig, const char *fmt, ...) {
     snprintf(pend[npend].sig, sizeof pend[npend].sig, "%s", sig); npend++;
 }
 
+#ifdef VF_RACE
+#include "race_rt.h"
+#define RACE_MON 1
+#else
+#define RACE_MON 0
+#endif
 static int mslot(void *m) { for (int i = 0; i < nmtx; i++) if (mtx_key[i] == m) return i; if (nmtx >= 16) { fprintf(stderr, "too many mutexes\n"); _exit(96); } mtx_key[nmtx] = m; mtx_owner[nmtx] = -1; return nmtx++; }
 static int is_enabled(int t) {
     T_t *x = &th[t]; if (!x->used || x->finished) return 0;
@@ -300,6 +307,29 @@ static void mon_final(int info) {
     }
 }
 
+#ifdef VF_RACE
+/* a conflicting, unordered pair on the stored values / row subscripts of L or U: C03 ("no thread alters the stored rows or values of a supernode while another
+   thread is reading them", "uses only descendant columns that have already been pivoted and scaled") */
+static void rt_report(const rt_range_t *r, char *addr, int t, int isw, int u, int uw, int uev, int ucol) {
+    char sig[96]; long idx = (long)(addr - r->lo) / (r->esz > 0 ? r->esz : 4);
+    rt_reports++; X->race_reports++;
+    snprintf(sig, sizeof sig, "C03:data-race:%s:%s-after-%s", r->name, isw ? "write" : "read", uw ? "write" : "read");
+    mon_viol(sig, "unordered conflicting accesses to %s[%ld]: thread %d %s it (after its event kind %d, column %d) and thread %d %s it (after its event kind %d, column %d) with no happens-before edge "
+             "(column flag, panel state, prune publication, lock, create/join) between the two", r->name, idx, u, uw ? "wrote" : "read", uev, ucol, t, isw ? "writes" : "reads", (int)rt_last_ev[t], (int)rt_last_col[t]);
+}
+static void rt_setup(void) {
+    GlobalLU_t *G = SH->Glu; int n = MN;
+    rt_add_range(G->lusup, sizeof(scalar_t) * (size_t)G->nzlumax, RT_DATA, "lusup", (int)sizeof(scalar_t));
+    rt_add_range(G->lsub, sizeof(int_t) * (size_t)G->nzlmax, RT_DATA, "lsub", (int)sizeof(int_t));
+    rt_add_range(G->ucol, sizeof(scalar_t) * (size_t)G->nzumax, RT_DATA, "ucol", (int)sizeof(scalar_t));
+    rt_add_range(G->usub, sizeof(int_t) * (size_t)G->nzumax, RT_DATA, "usub", (int)sizeof(int_t));
+    rt_add_range((void *)SH->spin_locks, sizeof(int_t) * (size_t)n, RT_SYNC, "spin_locks", (int)sizeof(int_t));
+    rt_add_range(SH->pan_status, sizeof(pan_status_t) * (size_t)(n + 1), RT_SYNC, "pan_status", (int)sizeof(pan_status_t));
+    rt_add_range((void *)&SH->tasks_remain, sizeof SH->tasks_remain, RT_SYNC, "tasks_remain", (int)sizeof(int_t));
+    rt_add_range(SH->ispruned, sizeof(int_t) * (size_t)n, RT_SYNC, "ispruned", (int)sizeof(int_t));
+    rt_on = 1;
+}
+#endif
 /* ------------------------------------------------------------------ interception */
 static int UNLOCK_POINTS = 1;
 static int bypass;     /* refactor jobs: the FIRST factorization (one worker) runs inline, outside the explored schedule */
@@ -311,6 +341,10 @@ int vf_thread_create(pthread_t *t, const pthread_attr_t *a, void *(*fn)(void *),
     int id = nth++; th[id].used = 1; th[id].finished = 0; th[id].op = OP_NONE; th[id].fn = fn; th[id].arg = arg; pthread_cond_init(&th[id].cv, NULL);
     threads_created++;
     if (!SH) { FN(p,gstrf_threadarg_t) *ta = arg; SH = ta->pxgstrf_shared; OPT = ta->superlumt_options; MN = SH->A->ncol; model_start(); }
+#ifdef VF_RACE
+    if (!rt_on) rt_setup();
+    rt_thread_create(me, id);
+#endif
     *t = (pthread_t)(long)id;
     pthread_attr_t at; pthread_attr_init(&at); pthread_attr_setstacksize(&at, 1 << 20);
     if (pthread_create(&th[id].th, &at, tramp, (void *)(long)id)) { fprintf(stderr, "pthread_create failed\n"); _exit(96); }
@@ -320,7 +354,11 @@ int vf_thread_create(pthread_t *t, const pthread_attr_t *a, void *(*fn)(void *),
 int vf_thread_join(pthread_t t, void **st) {
     if (bypass) { if (st) *st = NULL; return 0; }
     int id = (int)(long)t;
-    pthread_mutex_lock(&big); th[me].op = OP_JOIN; th[me].jtarget = id; point(); th[me].op = OP_NONE; threads_joined++; pthread_mutex_unlock(&big);
+    pthread_mutex_lock(&big); th[me].op = OP_JOIN; th[me].jtarget = id; point(); th[me].op = OP_NONE; threads_joined++;
+#ifdef VF_RACE
+    rt_thread_join(me, id);
+#endif
+    pthread_mutex_unlock(&big);
     pthread_join(th[id].th, NULL); if (st) *st = NULL; return 0;
 }
 int vf_mutex_init(pthread_mutex_t *m, const void *a) { (void)m; (void)a; return 0; }
@@ -329,11 +367,18 @@ int vf_mutex_lock(pthread_mutex_t *m) {
     if (nth <= 1 || pm_in_shadow_call) return 0;
     pthread_mutex_lock(&big); th[me].op = OP_LOCK; th[me].obj = m; point(); th[me].op = OP_NONE;
     int s = mslot(m); if (mtx_owner[s] >= 0) die_with(3, "scheduler error: mutex granted twice"); mtx_owner[s] = me;
+#ifdef VF_RACE
+    rt_acquire(me, m);
+#endif
     pthread_mutex_unlock(&big); return 0;
 }
 /* the unlock is a scheduling point too (added after seeded change C03/3): what a thread does between leaving a critical section and its next hooked
    statement is then separated from the critical section, so that stores moved out of the lock become visible as a window other threads can run in */
-int vf_mutex_unlock(pthread_mutex_t *m) { if (nth <= 1 || pm_in_shadow_call) return 0; pthread_mutex_lock(&big); mtx_owner[mslot(m)] = -1; if (UNLOCK_POINTS) point(); pthread_mutex_unlock(&big); return 0; }
+int vf_mutex_unlock(pthread_mutex_t *m) { if (nth <= 1 || pm_in_shadow_call) return 0; pthread_mutex_lock(&big); mtx_owner[mslot(m)] = -1;
+#ifdef VF_RACE
+    rt_release(me, m);
+#endif
+    if (UNLOCK_POINTS) point(); pthread_mutex_unlock(&big); return 0; }
 
 static unsigned long long sched_state_hash(void) {
     unsigned long long h = 0; if (!SH) return 0;
@@ -347,6 +392,9 @@ void slu_mt_verif_ev(int kind, long a, long b, long c) {
     pthread_mutex_lock(&big);
     { static int tr_ = -1; if (tr_ < 0) tr_ = getenv("VF_TRACE") != NULL; if (tr_) fprintf(stderr, "ev t=%d kind=%d a=%ld b=%ld c=%ld pts=%d\n", me, kind, a, b, (kind == VE_SCHED_RET || kind == VE_RELEASE || kind == VE_COL_SUPER || kind == VE_NEWSUPER || kind == VE_PANEL_BEGIN || kind == VE_COL_BEGIN) ? c : 0L, npts); }
     evlog[nev % EVLOG].t = (short)me; evlog[nev % EVLOG].kind = (short)kind; evlog[nev % EVLOG].a = a; evlog[nev % EVLOG].b = b; evlog[nev % EVLOG].c = (kind == VE_SCHED_RET || kind == VE_RELEASE || kind == VE_READ_SN_BEGIN) ? c : 0; nev++;
+#ifdef VF_RACE
+    rt_last_ev[me] = (short)kind; rt_last_col[me] = (short)b;
+#endif
     trace_hash = hmix_(trace_hash, ((unsigned long long)me << 56) ^ ((unsigned long long)kind << 48) ^ (unsigned long long)(a * 1315423911L + b * 2654435761L));
     switch (kind) {
     case VE_SCHED_RET: {            /* inside the critical section: an event, not a scheduling point */
@@ -377,6 +425,9 @@ static void sched_reset(void) {
     memset(th, 0, sizeof th); nth = 1; th[0].used = 1; pthread_cond_init(&th[0].cv, NULL); cur = 0; me = 0; nmtx = 0; npts = 0; preempts = 0; version = 0; nev = 0; steps_exec = 0; npend = 0;
     trace_hash = 1469598103934665603ULL;
     mon_reset();
+#ifdef VF_RACE
+    rt_reset();
+#endif
 }
 
 /* ------------------------------------------------------------------ one execution + oracles */
@@ -683,8 +734,8 @@ int main(int argc, char **argv) {
     if (complete && !X->lost_subtrees && X->executions <= 1 && NPROC >= 2 && TM.n >= 2) { out_init(); fprintf(vf_out, "{\"type\":\"machinery\",\"property\":\"%s\",\"detail\":\"vacuous exploration: %ld execution(s) of %s\"}\n", PROP, X->executions, CASE); }
     if (0 && X->conf_divergences) { out_init(); fprintf(vf_out, "{\"type\":\"machinery\",\"property\":\"%s\",\"detail\":\"model/implementation divergence in %ld executions of %s: ", PROP, X->conf_divergences, CASE); for (char *p = X->conf_msg; *p; p++) if (*p != '"' && *p != '\\') fputc(*p, vf_out); fprintf(vf_out, "\"}\n"); }
     out_stats(PROP, "\"shape\":\"%s\",\"n\":%d,\"P\":%d,\"bound\":%d,\"cfg\":\"w=%d rlx=%d ms=%d drv=%d dyn=%d vk=%d\",\"complete\":%s,\"executions\":%ld,\"states\":%ld,\"transitions\":%ld,"
-              "\"choice_points\":%ld,\"max_points\":%ld,\"distinct_outcomes\":%d,\"violations\":%ld,\"deaths\":%ld,\"lib_aborts\":%ld,\"lost_subtrees\":%ld,\"traces_validated\":%ld,\"conformance_events\":%ld,\"conformance_divergences\":%ld,\"executions_without_model\":%ld,\"scheduler_decisions\":%ld,\"regular_panels\":%ld,\"pipelined_panels\":%ld,\"blocked_waits\":%ld,\"wall_s\":%.2f",
+              "\"choice_points\":%ld,\"max_points\":%ld,\"distinct_outcomes\":%d,\"violations\":%ld,\"deaths\":%ld,\"lib_aborts\":%ld,\"lost_subtrees\":%ld,\"traces_validated\":%ld,\"conformance_events\":%ld,\"conformance_divergences\":%ld,\"executions_without_model\":%ld,\"scheduler_decisions\":%ld,\"regular_panels\":%ld,\"pipelined_panels\":%ld,\"blocked_waits\":%ld,\"race_monitor\":%d,\"race_data_accesses\":%ld,\"race_sync_accesses\":%ld,\"race_reports\":%ld,\"wall_s\":%.2f",
               shape, TM.n, NPROC, BOUND, CFG.w, CFG.relax, CFG.maxsuper, CFG.driver, CFG.dyn, vk, (complete && !X->lost_subtrees) ? "true" : "false", X->executions, X->ntraces, X->steps,
-              X->choice_points, X->maxpts, X->noutc, X->violations, X->deaths, X->lib_aborts, X->lost_subtrees, X->conf_execs_ok, X->conf_events, X->conf_divergences, X->conf_execs_unmodelled, X->sched_rets, X->regular_panels, X->pipelined_panels, X->waits_blocked, now_s() - T0);
+              X->choice_points, X->maxpts, X->noutc, X->violations, X->deaths, X->lib_aborts, X->lost_subtrees, X->conf_execs_ok, X->conf_events, X->conf_divergences, X->conf_execs_unmodelled, X->sched_rets, X->regular_panels, X->pipelined_panels, X->waits_blocked, RACE_MON, X->race_data_acc, X->race_sync_acc, X->race_reports, now_s() - T0);
     return 0;
 }
